@@ -344,9 +344,12 @@ func wtPart(seed int64) {
 			if tooManyStuck() {
 				return
 			}
-			if only("wclose", n) {
+			if only("wclose", n) || only("wtrace", n) {
+				kafka.VerifStart()
 				op, impl := wtScenario(kind, scRand(seed, 5, n), uint64(seed)<<20+uint64(n))
+				evs := kafka.VerifStop()
 				emitSc(n, op, impl)
+				emitWriterHooks(n, evs, impl)
 			}
 		}
 	}
